@@ -710,7 +710,9 @@ func (fx *FnExec) storeElem(st *State, et types.Type, ref, idx *Term, v Val) {
 		key := elemFamKey(et, lf.name)
 		fam := fx.family(st, key, ArrSort(RefSort, ArrSort(BV(64), lf.sort)))
 		inner := fx.c.Select(fam, ref)
-		fx.setFamily(st, key, fx.c.Store(fam, ref, fx.c.Store(inner, idx, lvs[k])))
+		ninner := fx.c.Store(inner, idx, lvs[k])
+		fx.setFamily(st, key, fx.c.Store(fam, ref, ninner))
+		fx.arrayUpdated(inner, ninner, idx, fx.bv64(1))
 	}
 }
 
